@@ -352,6 +352,12 @@ def run(prop, report, tier, seed, replay=None):
                     c['reads'] = [[] for _ in range(c['n'])]
                     c['req'] = [[t, 0] for t in range(c['n'])]
                 l2cases.append(c)
+            if prop == 'C04':
+                # the default worker count: more independent tasks than CPUs, max_workers left unset
+                nn = os.cpu_count() + 3
+                l2cases.append(dict(n=nn, types=[1] * nn, specs=[['tuple', []] for _ in range(nn)], reads=[[] for _ in range(nn)], behs=['ok'] * nn,
+                                    req=[[t, 0] for t in range(nn)], storage='none', bust=False, cont=True, runner='l2', max_workers=None,
+                                    sched_seed=rng.randrange(1 << 30), pre=[], p_kill=0.0))
         cases = [c for c in cases if c.get('runner') != 'l2']
         hangs = 0
         for c in l2cases:
@@ -379,7 +385,7 @@ def run(prop, report, tier, seed, replay=None):
                     dist['l2_completions_unseen_at_raise'] += 1
             results.append((eff, obs))
             terms.append(S.emit_case(eff, obs))
-            xterms.append(X.emit_xcase(script, c['max_workers']))
+            xterms.append(X.emit_xcase(script, c['max_workers'] if c['max_workers'] is not None else os.cpu_count()))
             xkept.append((c, script.ops))
             dist['runner=l2'] += 1
             dist[f"l2_kills={min(len(script.killed_fids), 3)}"] += 1
